@@ -42,3 +42,19 @@ package epubdoc
 //@     invariant r.pkg == old(r.pkg) && len(r.chapters) <= $i
 //@     invariant forall a int, b int :: {r.chapters[a], r.chapters[b]} 0 <= a && a < b && b < len(r.chapters) ==> r.chapters[a].Index < r.chapters[b].Index
 //@     invariant forall k int :: {r.chapters[k]} 0 <= k && k < len(r.chapters) ==> 0 <= r.chapters[k].Index && r.chapters[k].Index < $i && has(r.pkg.Manifest, r.pkg.Spine[r.chapters[k].Index].IDRef) && r.chapters[k].ID == r.pkg.Manifest[r.pkg.Spine[r.chapters[k].Index].IDRef].ID
+
+// hrefs are IRIs relative to the package document: percent-decoded as a PATH (RFC 3986: '+' stays '+'; only %XX is
+// decoded) and resolved against the directory of the package file
+//@ func (*Reader) resolveHref results (res)
+//@   property C18
+//@   flags readonly
+//@   ensures percent_decoded_path: !url.PathUnescape$1(href) && len(r.baseDir) == 0 ==> sameseq(res, url.PathUnescape(href))
+//@   ensures relative_to_package: !url.PathUnescape$1(href) && len(r.baseDir) > 0 ==> sameseq(res, path.Join(r.baseDir, url.PathUnescape(href)))
+//@   ensures undecodable_kept: url.PathUnescape$1(href) && len(r.baseDir) == 0 ==> sameseq(res, href)
+
+// the spine is kept in declaration order, one item per itemref
+//@ func convertSpine results (spine)
+//@   property C18
+//@   ensures in_declared_order: len(spine) == len(s.ItemRefs) && forall k int :: {spine[k]} 0 <= k && k < len(spine) ==> spine[k].IDRef == s.ItemRefs[k].IDRef && (spine[k].Linear <==> s.ItemRefs[k].Linear != "no")
+//@   loop 0:
+//@     invariant len(spine) == $i && forall k int :: {spine[k]} 0 <= k && k < $i ==> spine[k].IDRef == s.ItemRefs[k].IDRef && (spine[k].Linear <==> s.ItemRefs[k].Linear != "no")
